@@ -233,6 +233,9 @@ PROPS = {
                         "generator derivation (SHAKE256 chains, SHA3-512 masking basepoints) is not under contract"],
     },
     "C11": {
+        "standin_replay": "bounded, not proof: the input-free generator statics (value generator, six blinding generators, their compressed forms) and the vector generators for "
+                          "(bits, capacity) in {(4,1),(4,4),(8,2),(64,2)} and their 4x capacities are computed by the real crate and checked for non-identity, pairwise distinctness, "
+                          "capacity independence and compress() agreement",
         "units": ["gens_new", "gens", "ctors"],
         "design_ref": "DESIGN.md section 7, C11",
         "technique": "contract-based deductive verification (Verus) of the real BulletproofGens::new, generator iterators and accessors against a SHAKE256 / hash-to-group model",
